@@ -50,6 +50,18 @@ theorem one_feature_per_element (o : Opts) (isP : WayE → Bool) (d : Data) :
   have h3 := List.length_filterMap_le (nodePass o d) d.nodes
   omega
 
+/-- **"at most one feature per input ELEMENT" is false** of the model (and of the code: the same input gives two
+    `way/101` features from `osmgeojson.Convert` — the recorded finding `duplicate-way-feature-shared-outer`): two
+    old-style multipolygon relations (single outer way, no tags of their own) that share their outer way each
+    become a feature with that way's identity. `one_feature_per_element` above is the part that does hold. -/
+def exDup : Data := {
+  nodes := [],
+  ways := [⟨101, [⟨1, 1, 1⟩, ⟨2, 5, 1⟩, ⟨3, 5, 5⟩, ⟨4, 1, 5⟩, ⟨1, 1, 1⟩], [("landuse", "forest")], {}⟩],
+  relations := [⟨201, [⟨.way, 101, "outer", 0, []⟩], [("type", "multipolygon")], {}⟩,
+                ⟨202, [⟨.way, 101, "outer", 0, []⟩], [("type", "multipolygon")], {}⟩] }
+theorem one_feature_per_element_counterexample :
+    (convert {} (fun _ => true) exDup).map (fun f => (f.kind, f.id)) = [("way", 101), ("way", 101)] := by decide
+
 /-! ## nodes -/
 
 /-- **a point for every located node that is not part of a way, or has an interesting tag, or is a relation member** -/
